@@ -8,9 +8,14 @@ package store
 //       pools plus "main file changed or WAL reset" are read back.  Oracle (independent of the
 //       Coq models): a text that changed anything must have been flagged by the real guard.
 //       The observations are also what Model.C15_Sqlite.sqlite_effects must predict;
-//   (c) for a sample, the request [harmless; text; harmless] is sent through a live single-node
-//       Store's Execute, Query and Request: refused iff the guard flags it, and the Store's own
-//       database settings must be unchanged afterwards.
+//   (c) for a sample (always when the text starts with an EXPLAIN statement), the request
+//       [harmless; text; harmless] is built the way http.Service builds it — the real
+//       command/sql.Process is run over the proto.Statements (rewriting on for /db/execute and
+//       /db/request, off for a level=none /db/query), so Sql, SqlExplain and ForceQuery are what
+//       production sends — and handed to a live single-node Store's Execute, Query and Request:
+//       refused iff the guard flags a statement, and the settings of both connection pools of the
+//       node's database must be unchanged afterwards.
+// Everywhere the text that is judged is the text AFTER command/sql.Process (what reaches the Store).
 
 import (
 	"bytes"
@@ -27,6 +32,7 @@ import (
 	"time"
 
 	"github.com/rqlite/rqlite/v10/command/proto"
+	csql "github.com/rqlite/rqlite/v10/command/sql"
 	sql "github.com/rqlite/rqlite/v10/db"
 )
 
@@ -36,6 +42,25 @@ type c15Input struct {
 	Class string   `json:"class,omitempty"` // which variation hides the PRAGMA (for the finding signature)
 	NT    bool     `json:"nt,omitempty"`    // dangerous PRAGMA is not the first token of the text
 	Store bool     `json:"store,omitempty"` // also through a live Store
+}
+
+// c15Process builds the statements as http.Service does: one proto.Statement per submitted text, then the
+// real command/sql.Process (unless the client asked for noparse, which is not the default).
+func c15Process(texts []string, rewrite bool) []*proto.Statement {
+	stmts := make([]*proto.Statement, len(texts))
+	for i, t := range texts {
+		stmts[i] = &proto.Statement{Sql: t}
+	}
+	csql.Process(stmts, rewrite, rewrite)
+	return stmts
+}
+
+func c15StmtsCoq(stmts []*proto.Statement) string {
+	it := make([]string, len(stmts))
+	for i, st := range stmts {
+		it[i] = fmt.Sprintf("{| st_sql := %s; st_explain := %s; st_force_query := %s |}", coqBytes([]byte(st.Sql)), coqBool(st.SqlExplain), coqBool(st.ForceQuery))
+	}
+	return coqList(it)
 }
 
 // ---------------------------------------------------------------- scratch database (real SQLite)
@@ -86,7 +111,18 @@ func c15First(rows *proto.QueryRows) string {
 	if len(rows.Values) == 0 || len(rows.Values[0].Parameters) == 0 {
 		return "empty"
 	}
-	return fmt.Sprint(rows.Values[0].Parameters[0].GetValue())
+	switch v := rows.Values[0].Parameters[0].GetValue().(type) {
+	case *proto.Parameter_I:
+		return fmt.Sprint(v.I)
+	case *proto.Parameter_S:
+		return v.S
+	case *proto.Parameter_D:
+		return fmt.Sprint(v.D)
+	case *proto.Parameter_B:
+		return fmt.Sprint(v.B)
+	default:
+		return fmt.Sprint(v)
+	}
 }
 
 type c15Requester interface {
@@ -96,7 +132,8 @@ type c15Requester interface {
 func c15ReadRW(d c15Requester) (out [4]string) {
 	stmts := make([]*proto.Statement, len(c15Pragmas))
 	for i, p := range c15Pragmas {
-		stmts[i] = &proto.Statement{Sql: p}
+		// ForceQuery: "PRAGMA journal_mode" is not a read-only statement for SQLite, and its row is wanted
+		stmts[i] = &proto.Statement{Sql: p, ForceQuery: true}
 	}
 	resp, err := d.Request(&proto.Request{Statements: stmts}, false)
 	for i := range out {
@@ -166,8 +203,8 @@ func c15Diff(a, b c15State) c15Obs {
 
 var c15Modes = []string{"execute", "query", "request"}
 
-// run the text by real SQLite through one db.DB entry point and report what changed
-func (sc *c15Scratch) observe(mode string, text string) c15Obs {
+// run the (processed) statement by real SQLite through one db.DB entry point and report what changed
+func (sc *c15Scratch) observe(mode string, st *proto.Statement) c15Obs {
 	if sc.d == nil {
 		sc.fresh()
 	}
@@ -186,13 +223,14 @@ func (sc *c15Scratch) observe(mode string, text string) c15Obs {
 	} else {
 		before = sc.state()
 	}
+	req := &proto.Request{Statements: []*proto.Statement{{Sql: st.Sql, ForceQuery: st.ForceQuery, SqlExplain: st.SqlExplain}}}
 	switch mode {
 	case "execute":
-		sc.d.ExecuteStringStmt(text)
+		sc.d.Execute(req, false)
 	case "query":
-		sc.d.QueryStringStmt(text)
+		sc.d.Query(req, false)
 	case "request":
-		sc.d.RequestStringStmts([]string{text})
+		sc.d.Request(req, false)
 	}
 	after := sc.state()
 	o := c15Diff(before, after)
@@ -241,43 +279,74 @@ func (l *c15Live) start() {
 	}
 }
 
-// returns refused[3] and, if the Store's database settings moved, a description
-func (l *c15Live) run(text string) (refused []bool, moved string) {
+type c15LiveState struct {
+	RW [4]string
+	RO [2]string // synchronous, query_only on the node's read-only pool
+	Sz int64
+}
+
+func (l *c15Live) state() (st c15LiveState) {
+	st.RW = c15ReadRW(l.s.db)
+	for i, p := range []string{"PRAGMA synchronous", "PRAGMA query_only"} {
+		r, err := l.s.db.QueryStringStmt(p)
+		if err != nil || len(r) == 0 {
+			st.RO[i] = fmt.Sprint("ERR:", err)
+		} else {
+			st.RO[i] = c15First(r[0])
+		}
+	}
+	st.Sz, _ = l.s.db.FileSize()
+	return
+}
+
+// Sends [SELECT 1; text; SELECT 1], processed as by http.Service, through Store.Execute, Query and Request.
+// Returns the three requests as sent, refused[3], whether a statement the real guard flags was accepted, and,
+// if the settings of the node's database moved, a description.
+func (l *c15Live) run(text string) (reqs [][]*proto.Statement, refused []bool, moved string) {
 	if l.s == nil {
 		l.start()
 	}
-	req := []string{"SELECT 1", text, "SELECT 1"}
+	raw := []string{"SELECT 1", text, "SELECT 1"}
 	isRefusal := func(err error) bool { return err != nil && err.Error() == "disallowed pragma" }
 	for _, ent := range []string{"Execute", "Query", "Request"} {
-		before := c15ReadRW(l.s.db)
-		fsz, _ := l.s.db.FileSize()
+		// /db/query at level none (served locally from the read-only pool) does not rewrite
+		stmts := c15Process(raw, ent != "Query")
+		reqs = append(reqs, stmts)
+	}
+	for i, ent := range []string{"Execute", "Query", "Request"} {
+		// the Store gets its own copy: what was sent is what is reported
+		stmts := make([]*proto.Statement, len(reqs[i]))
+		for j, st := range reqs[i] {
+			stmts[j] = &proto.Statement{Sql: st.Sql, ForceQuery: st.ForceQuery, SqlExplain: st.SqlExplain}
+		}
+		before := l.state()
 		var err error
 		ctx, cancel := context.WithTimeout(context.Background(), 10*time.Second)
 		switch ent {
 		case "Execute":
-			_, _, err = l.s.Execute(ctx, executeRequestFromStrings(req, false, false))
+			_, _, err = l.s.Execute(ctx, &proto.ExecuteRequest{Request: &proto.Request{Statements: stmts}})
 		case "Query":
-			qr := queryRequestFromStrings(req, false, false, false)
-			qr.Level = proto.ConsistencyLevel_NONE
-			_, _, _, err = l.s.Query(ctx, qr)
+			_, _, _, err = l.s.Query(ctx, &proto.QueryRequest{Request: &proto.Request{Statements: stmts}, Level: proto.ConsistencyLevel_NONE})
 		case "Request":
-			_, _, _, err = l.s.Request(ctx, executeQueryRequestFromStrings(req, proto.ConsistencyLevel_WEAK, false, false, false))
+			_, _, _, err = l.s.Request(ctx, &proto.ExecuteQueryRequest{Request: &proto.Request{Statements: stmts}, Level: proto.ConsistencyLevel_WEAK})
 		}
 		cancel()
 		refused = append(refused, isRefusal(err))
-		after := c15ReadRW(l.s.db)
-		fsz2, _ := l.s.db.FileSize()
-		if before != after || fsz != fsz2 {
-			moved = fmt.Sprintf("Store.%s: settings of the node's database %v -> %v, main file size %d -> %d", ent, before, after, fsz, fsz2)
+		after := l.state()
+		if before != after {
 			names := []string{"journal_mode", "wal_autocheckpoint", "synchronous", "query_only"}
 			what := "checkpoint"
-			for i := range before {
-				if before[i] != after[i] {
-					what = names[i]
+			for k := range before.RW {
+				if before.RW[k] != after.RW[k] {
+					what = names[k]
 					break
 				}
 			}
-			moved = ent + ":" + what + "|" + moved
+			if before.RW == after.RW && before.RO != after.RO {
+				what = "read-only-pool"
+			}
+			moved = ent + ":" + what + "|" + fmt.Sprintf("Store.%s: node's database RW %v -> %v, read-only pool %v -> %v, main file size %d -> %d",
+				ent, before.RW, after.RW, before.RO, after.RO, before.Sz, after.Sz)
 			l.restarts++
 			l.start()
 			for len(refused) < 3 {
@@ -307,6 +376,11 @@ var c15Harmless = []string{
 	"SELECT [a;b] FROM foo", "SELECT `v` FROM foo", "SELECT 1 /* ; PRAGMA synchronous=2; */", "SELECT 1 -- ; PRAGMA synchronous=2",
 	"SELECT '--', '/*'", "UPDATE foo SET v='it''s' WHERE id=1", "PRAGMA foreign_keys", "PRAGMA table_info(foo)", "SELECT 5 - -1, 4/2, 3->>'$'",
 	"SELECT 'PRAGMA' || ';' || 'query_only=1'", "SELECT 1 WHERE 2 >= 1 AND 3 <> 4 AND 1 != 2 AND 1 == 1",
+}
+var c15ExplainFirst = []string{
+	"EXPLAIN SELECT 1", "explain select * from foo", "EXPLAIN QUERY PLAN SELECT * FROM foo", "Explain Query Plan SELECT v FROM foo WHERE id=1",
+	"EXPLAIN INSERT INTO foo(v) VALUES('x')", "EXPLAIN QUERY PLAN DELETE FROM foo", "/* c */ EXPLAIN SELECT 1", "EXPLAIN UPDATE foo SET v='y' RETURNING id",
+	"EXPLAIN SELECT random()", "EXPLAIN PRAGMA foreign_keys",
 }
 var c15UniSpace = []string{"\u00a0", "\u0085", "\u1680", "\u2000", "\u2003", "\u200a", "\u2028", "\u2029", "\u202f", "\u205f", "\u3000", "\v", "\u00a0 \t", "\u200b", "\u180e", "\ufeff", "\xc2", "\xe2\x80"}
 
@@ -451,7 +525,18 @@ func c15Gen(r *rand.Rand) c15Input {
 	n := 1 + r.Intn(3)
 	pos := r.Intn(n)
 	dangerous := false
+	explainFirst := r.Intn(12) == 0
+	if explainFirst {
+		// a text whose FIRST statement is an EXPLAIN (the HTTP layer flags the whole text SqlExplain) and whose PRAGMA comes later
+		n = 2 + r.Intn(2)
+		pos = 1 + r.Intn(n-1)
+	}
 	for i := 0; i < n; i++ {
+		if i == 0 && explainFirst {
+			parts = append(parts, c15Pick(r, c15ExplainFirst))
+			tags = append(tags, "explain-first-statement")
+			continue
+		}
 		if i == pos {
 			s, tg, cl, d := c15PragmaStmt(r)
 			parts = append(parts, s)
@@ -463,7 +548,11 @@ func c15Gen(r *rand.Rand) c15Input {
 	}
 	var sb strings.Builder
 	// prefix of the whole text
-	switch r.Intn(6) {
+	prefixKind := r.Intn(6)
+	if explainFirst {
+		prefixKind = 5 + r.Intn(2)*(-5) // none, or a plain separator
+	}
+	switch prefixKind {
 	case 0:
 		s := c15Pick(r, c15Seps)
 		sb.WriteString(s)
@@ -534,7 +623,7 @@ func c15Gen(r *rand.Rand) c15Input {
 	} else {
 		tags = append(tags, "dangerous")
 	}
-	return c15Input{Text: []byte(sb.String()), Tags: tags, Class: class, NT: nt && dangerous}
+	return c15Input{Text: []byte(sb.String()), Tags: tags, Class: class, NT: nt && dangerous, Store: explainFirst}
 }
 
 var c15MutBytes = []byte("'\"`[];/*-\n\x00\v\xef\xbb\xbf\xc2\xa0$()@:#=. xX\\!<>|\x01\x7f\xff0e+")
@@ -558,7 +647,7 @@ func c15Mutate(r *rand.Rand, in c15Input) c15Input {
 			b = append(b[:p], append([]byte{b[p]}, b[p:]...)...)
 		}
 	}
-	return c15Input{Text: b, Tags: []string{"mutated"}, Class: "", NT: false}
+	return c15Input{Text: b, Tags: []string{"mutated"}, Class: "", NT: false, Store: in.Store}
 }
 
 var c15Corpus = []struct{ text, class string }{
@@ -585,6 +674,14 @@ var c15Corpus = []struct{ text, class string }{
 	{"PRAGMA main.wal_autocheckpoint=55", "schema-prefix"},
 	{"PRAGMA \"main\".synchronous=1", "schema-prefix"},
 	{"PRAGMA main . query_only = 1", "schema-prefix"},
+	{"EXPLAIN SELECT 1; PRAGMA synchronous=2", "second-statement"},
+	{"EXPLAIN QUERY PLAN SELECT * FROM foo; PRAGMA wal_autocheckpoint=7", "second-statement"},
+	{"explain select 1; PRAGMA wal_checkpoint(TRUNCATE)", "second-statement"},
+	{"EXPLAIN SELECT 1; PRAGMA query_only=0", "second-statement"},
+	{"EXPLAIN SELECT 1; SELECT 2; PRAGMA main.query_only(1)", "second-statement"},
+	{"EXPLAIN SELECT 1", ""},
+	{"INSERT INTO foo(v) VALUES('r') RETURNING id; PRAGMA synchronous=2", "second-statement"},
+	{"SELECT random(); PRAGMA synchronous=2", ""},
 	{"EXPLAIN PRAGMA synchronous=FULL", "explain-prefix"},
 	{"EXPLAIN QUERY PLAN PRAGMA query_only=1", "explain-prefix"},
 	{"explain pragma wal_autocheckpoint=77", "explain-prefix"},
@@ -629,12 +726,15 @@ var c15Corpus = []struct{ text, class string }{
 // ---------------------------------------------------------------- one case
 
 func c15Run(w *vWriter, sc *c15Scratch, live *c15Live, in c15Input) {
-	text := string(in.Text)
+	raw := string(in.Text)
+	// what /db/execute hands to the Store for this text
+	st := c15Process([]string{raw}, true)[0]
+	text := st.Sql
 	flagged := sql.IsBreakingPragma(text)
 	var obs []c15Obs
 	fail, sig := "", ""
 	for _, m := range c15Modes {
-		o := sc.observe(m, text)
+		o := sc.observe(m, st)
 		obs = append(obs, o)
 		if o.any() && !flagged && fail == "" {
 			fail = fmt.Sprintf("text %q is not flagged by IsBreakingPragma but changed %s when run by SQLite (db.DB %s)", text, o.kinds(), m)
@@ -646,18 +746,25 @@ func c15Run(w *vWriter, sc *c15Scratch, live *c15Live, in c15Input) {
 		}
 	}
 	var refused []bool
+	var reqs [][]*proto.Statement
 	if in.Store && live != nil && live.restarts < 8 { // a broken guard is reported long before; keep the run short
 		var moved string
-		refused, moved = live.run(text)
+		reqs, refused, moved = live.run(raw)
 		if moved != "" && fail == "" {
 			k := strings.SplitN(moved, "|", 2)
-			fail = fmt.Sprintf("request [SELECT 1; %q; SELECT 1] changed the node's database: %s", text, k[1])
+			fail = fmt.Sprintf("request [SELECT 1; %q; SELECT 1] (SqlExplain=%v) changed the node's database: %s", raw, reqs[0][1].SqlExplain, k[1])
 			sig = "C15:store:" + k[0]
 		}
 		for i, ent := range []string{"Execute", "Query", "Request"} {
-			if flagged && !refused[i] && fail == "" {
-				fail = fmt.Sprintf("Store.%s accepted a request whose statement %q is a breaking PRAGMA", ent, text)
-				sig = "C15:guard-not-applied:" + ent
+			for _, s := range reqs[i] {
+				if sql.IsBreakingPragma(s.Sql) && !refused[i] && fail == "" {
+					fail = fmt.Sprintf("Store.%s accepted a request whose statement %q (SqlExplain=%v, ForceQuery=%v, as set by command/sql.Process) is a breaking PRAGMA",
+						ent, s.Sql, s.SqlExplain, s.ForceQuery)
+					sig = "C15:guard-not-applied:" + ent
+					if s.SqlExplain {
+						sig += ":sql-explain-flag"
+					}
+				}
 			}
 		}
 	}
@@ -669,9 +776,25 @@ func c15Run(w *vWriter, sc *c15Scratch, live *c15Live, in c15Input) {
 	for i, b := range refused {
 		rc[i] = coqBool(b)
 	}
+	qc := make([]string, len(reqs))
+	for i, r := range reqs {
+		qc[i] = c15StmtsCoq(r)
+	}
 	tags := append([]string{}, in.Tags...)
 	if flagged {
 		tags = append(tags, "flagged")
+	}
+	if text != raw {
+		tags = append(tags, "rewritten-by-sql.Process")
+	}
+	if st.SqlExplain {
+		tags = append(tags, "SqlExplain-flag")
+	}
+	if st.ForceQuery {
+		tags = append(tags, "ForceQuery-flag")
+	}
+	if len(reqs) > 0 {
+		tags = append(tags, "through-live-store")
 	}
 	for _, o := range obs {
 		if o.any() {
@@ -682,9 +805,9 @@ func c15Run(w *vWriter, sc *c15Scratch, live *c15Live, in c15Input) {
 	sort.Strings(tags)
 	c := VCase{
 		Input:      in,
-		Coq:        fmt.Sprintf("{| c_text := %s; c_guard := %s; c_obs := %s; c_refused := %s |}", coqBytes(in.Text), coqBool(flagged), coqList(oc), coqList(rc)),
+		Coq:        fmt.Sprintf("{| c_text := %s; c_guard := %s; c_obs := %s; c_reqs := %s; c_refused := %s |}", coqBytes([]byte(text)), coqBool(flagged), coqList(oc), coqList(qc), coqList(rc)),
 		Nontrivial: in.NT,
-		Key:        fmt.Sprintf("%q", text),
+		Key:        fmt.Sprintf("%q", raw),
 		Tags:       tags,
 		OracleFail: fail,
 		Sig:        sig,
@@ -721,7 +844,7 @@ func TestVerif_C15(t *testing.T) {
 		nt := c.class != "" && c.class != "call-syntax" && c.class != "quoted-name" && c.class != "schema-prefix" && c.class != "inner-comment"
 		c15Run(w, sc, live, c15Input{Text: []byte(c.text), Tags: []string{"corpus"}, Class: c.class, NT: nt, Store: true})
 	}
-	n := vN(1000, 30000)
+	n := vN(800, 30000)
 	storeEvery := 10
 	if vTier() == "thorough" {
 		storeEvery = 20
@@ -731,7 +854,7 @@ func TestVerif_C15(t *testing.T) {
 		if i%4 == 3 {
 			in = c15Mutate(rng, in)
 		}
-		in.Store = i%storeEvery == 0
+		in.Store = in.Store || i%storeEvery == 0
 		if bytes.IndexByte(in.Text, 0) >= 0 {
 			in.Tags = append(in.Tags, "contains-NUL")
 		}
